@@ -9,6 +9,7 @@ import (
 	"strconv"
 	"strings"
 
+	_ "github.com/MichaelMure/git-bug/zzverif/apisim"
 	_ "github.com/MichaelMure/git-bug/zzverif/byzsim"
 	_ "github.com/MichaelMure/git-bug/zzverif/procsim"
 	_ "github.com/MichaelMure/git-bug/zzverif/repsim"
